@@ -5,6 +5,7 @@ import sys
 sys.path.insert(0, os.environ.get("VERIF_REPO", "/repo"))
 sys.path.insert(0, os.path.dirname(os.path.abspath(__file__)))
 sys.setrecursionlimit(20000)
+sys.set_int_max_str_digits(0)  # z3's Python API renders wide bit-vector constants through str(int)
 
 import framework  # noqa: E402
 
